@@ -365,6 +365,82 @@ def check_history(case, meta, h, d, stats, hist):
     return probs
 
 
+def gauss_density(v, Rinv, detR):
+    m = len(v)
+    q = sum(Fraction(v[i]) * Rinv[i][j] * Fraction(v[j]) for i in range(m) for j in range(m))
+    return (2 * math.pi) ** (-m / 2.0) * float(detR) ** -0.5 * sexp(-0.5 * float(q))
+
+
+def det_frac(A):
+    n = len(A)
+    M = [[Fraction(x) for x in row] for row in A]
+    d = Fraction(1)
+    for c in range(n):
+        p = next((r for r in range(c, n) if M[r][c] != 0), None)
+        if p is None:
+            return Fraction(0)
+        if p != c:
+            M[c], M[p] = M[p], M[c]
+            d = -d
+        d *= M[c][c]
+        for r in range(c + 1, n):
+            f = M[r][c] / M[c][c]
+            M[r] = [a - f * b for a, b in zip(M[r], M[c])]
+    return d
+
+
+def parse_glik(line):
+    t = line.split()
+    scale, fail, m, n = unhex(t[1]), int(t[2]), int(t[3]), int(t[4])
+    p = 5
+    y = [unhex(x) for x in t[p:p + m]]; p += m
+    P = vlib.mat_from_cm(t[p:p + m * n], m, n, unhex); p += m * n
+    R = vlib.mat_from_cm(t[p:p + m * m], m, m, unhex)
+    return (scale, fail, m, n, y, P, R)
+
+
+def likelihood_stage(ctx, binary, stats, only=None):
+    """the shipped GaussianLikelihood: validity = all four model calls succeed (all 16 subsets), one non-negative
+    likelihood per particle = scale * N(innovation; 0, R)"""
+    g = ctx.gen("glik")
+    r = g.r
+    cases = [parse_glik(only)] if only else []
+    for rep in range(0 if only else ctx.n(3, 30)):
+        for fail in range(16):
+            m, n = r.randint(1, 3), r.randint(1, 6)
+            R = g.spd(m, cond=10 ** r.uniform(0, 4), scale=10 ** r.uniform(-1, 1))
+            y = [r.uniform(-2, 2) for _ in range(m)]
+            P = [[r.uniform(-3, 3) for _ in range(n)] for _ in range(m)]
+            scale = r.choice([1.0, 1.0, 0.5, 2.5, 0.0])
+            cases.append((scale, fail, m, n, y, P, R))
+    hl, dl, dens = [], [], []
+    for scale, fail, m, n, y, P, R in cases:
+        hl.append("glik %s %d %d %d %s %s %s" % (hexd(scale), fail, m, n, " ".join(hexd(x) for x in y), " ".join(vlib.fmt_mat_cm(P)), " ".join(vlib.fmt_mat_cm(R))))
+        Rinv, dR = vlib.minv_frac(R), det_frac(R)
+        ds = [gauss_density([P[i][c] - y[i] for i in range(m)], Rinv, dR) for c in range(n)]
+        dens.append(ds)
+        dl.append("glik %s %d %d %d %d %d %s" % (hexd(scale), 0 if fail & 1 else 1, 0 if fail & 2 else 1, 0 if fail & 4 else 1, 0 if fail & 8 else 1, n, " ".join(hexd(x) for x in ds)))
+    hout, logs = vlib.run_harness(binary, hl)
+    dout = vlib.run_driver(dl)
+    bad = []
+    for (scale, fail, m, n, y, P, R), ds, line, h, d in zip(cases, dens, hl, hout, dout):
+        ht, dt = h.split(), d.split()
+        if not ht or ht[0] != "ok":
+            bad.append(("prop", "likelihood-crash", "GaussianLikelihood failed (fail mask %d): %s" % (fail, h[:80]), line, h)); continue
+        valid, size = int(ht[1]), int(ht[2])
+        vals = [unhex(x) for x in ht[3:3 + size]]
+        if valid != (1 if fail == 0 else 0):
+            bad.append(("prop", "likelihood-validity", "fail mask %d: likelihood reported %s" % (fail, "valid" if valid else "invalid"), line, h)); continue
+        if valid:
+            want = [scale * x for x in ds]
+            if size != n or any(not (v >= 0.0 and math.isfinite(v)) for v in vals) or any(abs(a - b) > 1e-8 * abs(b) + 1e-300 for a, b in zip(vals, want)):
+                bad.append(("prop", "likelihood-value", "likelihood is not scale * N(innovation; 0, R), non-negative, one per particle: %s vs %s" % (vals[:3], want[:3]), line, h)); continue
+        if dt[0] != "ok" or int(dt[1]) != valid or int(dt[2]) != size or any(abs(unhex(a) - b) > 1e-8 * abs(b) + 1e-300 for a, b in zip(dt[3:], vals)):
+            bad.append(("corr", "likelihood-model", "gaussianLikelihood (model) %s vs implementation %s" % (d[:60], h[:60]), line, h))
+        stats["likelihood_cases_valid" if valid else "likelihood_cases_invalid"] = stats.get("likelihood_cases_valid" if valid else "likelihood_cases_invalid", 0) + 1
+    return len(cases), bad, len(logs)
+
+
 def run(ctx):
     ctx.proof_stage()
     if not ctx.quick():
@@ -378,11 +454,20 @@ def run(ctx):
     n_hist = ctx.n(700, 5000)
     cases = []
     corpus = vlib.VERIF / "corpus" / "C06" / "cases.txt"
-    if corpus.exists():
+    replay_line = None
+    if ctx.replay:
+        import json
+        replay_line = json.load(open(ctx.replay)).get("replay", {}).get("input_line")
+    glik_replay = replay_line if (replay_line and replay_line.startswith("glik")) else None
+    if replay_line:
+        if not glik_replay:
+            cases.append(parse_line(replay_line))
+        n_hist = 0
+    elif corpus.exists():
         for ln in corpus.read_text().split("\n"):
             if ln.strip() and not ln.startswith("#"):
                 cases.append(parse_line(ln.strip()))
-    for forced in ["n3-onehot"] * 4 + ["n3-init-onehot"] * 2 + ["n6-twohot"] * 2 + ["init-peaked"] * 4 + ["circ-resample"] * ctx.n(12, 100) + ["circ-resample-prior"] * ctx.n(8, 60):
+    for forced in [] if replay_line else ["n3-onehot"] * 4 + ["n3-init-onehot"] * 2 + ["n6-twohot"] * 2 + ["init-peaked"] * 4 + ["circ-resample"] * ctx.n(12, 100) + ["circ-resample-prior"] * ctx.n(8, 60):
         cases.append(gen_history(r, ctx.tier, forced))
     cases += [gen_history(r, ctx.tier) for _ in range(n_hist)]
     # the draws of the resampler's generator (twin generator, same seed, same distribution)
@@ -412,6 +497,9 @@ def run(ctx):
             probs = [("prop", "malformed-output", "harness output not parseable (%r): %s" % (ex, h[:160]))]
         for kind, key2, what in probs:
             (corr_bad if kind == "corr" else prop_bad).append((key2, what, hl, h))
+    n_lik, lik_bad, lik_crashes = (0, [], 0) if (replay_line and not glik_replay) else likelihood_stage(ctx, binary, stats, glik_replay)
+    for kind, key2, what, line, h in lik_bad:
+        (corr_bad if kind == "corr" else prop_bad).append((key2, what, line, h))
     prop_bad.sort(key=lambda v: len(v[2]))          # report the smallest failing input of each kind
     corr_bad.sort(key=lambda v: len(v[2]))
     seen = set()
@@ -427,19 +515,21 @@ def run(ctx):
     nontrivial = set(hl for (c, m), hl in zip(cases, hlines) if m["n"] > 1 and m["K"] > 1)
     resampled_circ = sum(v for k, v in hist.items() if k.endswith("resample"))
     ctx.coverage.update({
-        "evaluations": len(cases), "distinct_nontrivial": len(nontrivial & distinct),
+        "evaluations": len(cases) + n_lik, "distinct_nontrivial": len(nontrivial & distinct),
+        "gaussian_likelihood_cases": n_lik, "gaussian_likelihood_fail_subsets_exhaustive": True,
         "rule": "scripted histories of the real SIS filter thread: 1..%d steps, N in 1..50, layouts lin 0..3 / circ 0..2, per step a skip command "
                 "(prediction/correction/all on/off), acquisition success/failure, valid/invalid likelihood, likelihood vectors (ones, random, peaked, exact zeros, "
                 "all zero, 1e-300, one-hot, two-hot, 1e300); forced boundary histories (N=3 one-hot: neff == N/3 exactly; resampling with circular components); "
                 "non-trivial = N > 1 and more than one step; distinct = distinct input lines" % (30 if ctx.quick() else 60),
-        "samples": [hlines[0][:400], hlines[len(hlines) // 2][:400]],
+        "samples": ([hlines[0][:400], hlines[len(hlines) // 2][:400]] if hlines else [str(glik_replay)[:400]]),
         "steps_executed": steps_total, "step_class_histogram": hist, "history_mode_histogram": modes,
         "branch_and_numeric_counters": stats, "steps_with_resampling": resampled_circ,
         "traces_validated_against_impl": len(cases),
         "model_vs_impl_disagreements": len(corr_bad), "property_failures_on_impl": len(prop_bad),
-        "sanitizer_crashes": len(logs),
+        "sanitizer_crashes": len(logs) + lik_crashes,
     })
     ctx.assumptions += [
+        "likelihoods non-negative (hypothesis EvOK.likNonneg): checked on the shipped GaussianLikelihood (gaussian_likelihood_contract; density non-negative is C15's)",
         "initial weights normalised (hypothesis InitOK of the theorems; true of the shipped InitSurveillanceAreaGrid and of the scripted initialiser)",
         "prediction step satisfies PredOK (shape-preserving, copies weights): DrawParticles over a harness-defined deterministic state model",
         "the draws of the resampler are obtained from a twin std::mt19937_64 + uniform_real_distribution(0, 1/N); 0 < u1 < 1/N asserted on every draw",
